@@ -301,6 +301,189 @@ class Add11Refile(Contract):
         raise NotImplementedError
 
 
+class ImagesRoundTrip(Contract):
+    """Images.serialize + Images.deserialize on the manifests  {V1: {A: {I1, I2}}, V2: {A: {I1}}}  (I1 the SAME object under two cells) and
+    {V1: {A: {I1}}, V2: {A: {I3}}}  (two images whose paths may coincide): variants, arch and all fifteen attributes of every image symbolic.  Every cell is read back under the same variant/arch with exactly the
+    written images, all attributes equal; the compose section is intact.  Bounded in SHAPE, unbounded in values."""
+    name = "productmd.images.Images.deserialize(serialize(manifest))"
+    key = "rt:images.Images"
+
+    def __init__(self, src, T):
+        self.src, self.T = src, T
+
+    def setup(self, E):
+        from .sections import _sv_fields
+        m = E.instantiate(("images", "Images"))
+        m2 = E.instantiate(("images", "Images"))
+        cf = _sv_fields(E, m.fields["compose"], ["id", "type", "date", "respin"], "compose")
+        E.assume(F.valid_compose(self.T, m.fields["compose"]))
+        V1 = SV(sym.Val.VStr(z3.Const("V1", sym.S)))
+        V2 = SV(sym.Val.VStr(z3.Const("V2", sym.S)))
+        A = SV(sym.Val.VStr(z3.Const("A", sym.S)))
+        E.assume(And(Not(eq(V1, V2)), sym.isin(A, self.T.RPM_ARCHES), Not(sym.isin(A, ["src", "nosrc"]))))
+        ims = []
+        # the second cell holds either I1 again (the SAME object under two cells) or a third image I3 whose path may coincide with a path
+        # used in the first cell (paths are distinct per cell only)
+        shared = E.decide(E.fresh("second_cell_shares_object", z3.BoolSort()))
+        for tag in ("I1", "I2") if shared else ("I1", "I3"):
+            im = E.instantiate(("images", "Image"), [m])
+            f = _sv_fields(E, im, [a for a in IMAGE_FIELDS if a != "additional_variants"], tag)
+            # I1: no additional variants; I2: a unified image with one additional variant (symbolic)
+            f["additional_variants"] = [] if tag != "I2" else [SV(sym.Val.VStr(z3.Const("I2.additional_variant", sym.S)))]
+            im.fields["additional_variants"] = list(f["additional_variants"])
+            E.assume(F.valid_image(self.T, im))
+            ims.append((im, f))
+        # shape A (shared):  {V1: {A: {I1, I2}}, V2: {A: {I1}}};   shape B:  {V1: {A: {I1}}, V2: {A: {I3}}}
+        (i1, f1) = ims[0]
+        (i2, f2) = ims[1] if shared else (None, None)
+        i3, f3 = (i1, f1) if shared else ims[1]
+        if shared:
+            E.assume(Not(eq(f1["path"], f2["path"])))
+        # the library only files images without an identity clash (Images.add, C10)
+        ident = IDENT
+
+        def no_clash(fa, fb):
+            same_av = len(fa["additional_variants"]) == len(fb["additional_variants"]) and \
+                And(*[eq(x, y) for x, y in zip(fa["additional_variants"], fb["additional_variants"])])
+            return Implies(And(same_av, *[eq(fa[a], fb[a]) for a in ident]), eq(fa["checksums"], fb["checksums"]))
+        E.assume(no_clash(f1, f2) if shared else no_clash(f1, f3))
+        images = E.models.new_dict("images")
+        c1 = E.models.new_dict("images[V1]")
+        c1.entries.append(Entry(A, True, ListSet([i1, i2] if shared else [i1])))
+        c2 = E.models.new_dict("images[V2]")
+        c2.entries.append(Entry(A, True, ListSet([i3])))
+        order = [(V1, c1), (V2, c2)]
+        rev = E.decide(E.fresh("variants_reversed", z3.BoolSort()))
+        if rev:
+            order.reverse()
+        for k, v in order:
+            images.entries.append(Entry(k, True, v))
+        m.fields["images"] = images
+        return {"m": m, "m2": m2, "V1": V1, "V2": V2, "A": A, "f1": f1, "f2": f2, "f3": f3, "shared": shared, "cf": cf, "rev": rev,
+                "data": E.models.new_dict("doc")}
+
+    def call(self, E, st):
+        E.call(E.getattr_(st["m"], "serialize"), [st["data"]])
+        return E.call(E.getattr_(st["m2"], "deserialize"), [st["data"]])
+
+    def post(self, E, st, out):
+        if out.kind == "raise":
+            return {"write_read_cycle_succeeds": False}
+        m2 = st["m2"]
+        im2 = m2.fields["images"]
+
+        def cell(v):
+            e = E.models.sd_lookup(im2, v, create=False) if isinstance(im2, SymDict) else None
+            if e is None or e.present is not True or not isinstance(e.value, SymDict):
+                return None, None
+            inner = e.value
+            e2 = E.models.sd_lookup(inner, st["A"], create=False)
+            return inner, (e2.value if e2 is not None and e2.present is True else None)
+
+        def img_eq(o, f):
+            return And(*[_veq(o.fields[k], f[k]) for k in IMAGE_FIELDS])
+
+        def holds(c, fs):
+            ms = _members(c)
+            if ms is None or len(ms) != len(fs) or not all(isinstance(x, Obj) for x in ms):
+                return False
+            return And(*[Or(*[img_eq(x, f) for x in ms]) for f in fs])
+        in1, c1 = cell(st["V1"])
+        in2, c2 = cell(st["V2"])
+        top = [e for e in im2.entries if e.present is True] if isinstance(im2, SymDict) else []
+        comp = m2.fields["compose"]
+        return {"write_read_cycle_succeeds": True,
+                "no_variant_or_arch_gained_or_lost": len(top) == 2 and in1 is not None and in2 is not None and
+                len([e for e in in1.entries if e.present is True]) == 1 and len([e for e in in2.entries if e.present is True]) == 1,
+                "every_image_of_a_cell_read_back_with_all_attributes": holds(c1, [st["f1"], st["f2"]] if st["shared"] else [st["f1"]]),
+                "image_of_the_other_cell_read_back_from_its_own_record": holds(c2, [st["f3"]]),
+                "compose_section_intact": And(*[_veq(comp.fields[k], v) for k, v in st["cf"].items()]),
+                "version_current_after_load": m2.fields["header"].fields["version"] == "%d.%d" % self.T.VERSION}
+
+    def concretise(self, model, st):
+        inp = {"V1": concretise.value_of(model, st["V1"]), "V2": concretise.value_of(model, st["V2"]), "A": concretise.value_of(model, st["A"])}
+        def val(v):
+            return [val(x) for x in v] if isinstance(v, list) else concretise.value_of(model, v)
+        for k in ("f1", "f2", "f3", "cf"):
+            inp[k] = dict((a, val(v)) for a, v in st[k].items()) if st[k] is not None else None
+        inp["shared"] = bool(st["shared"])
+        inp["reversed"] = bool(st["rev"])
+        return inp
+
+    def sample_inputs(self, rng):
+        def img(path, **kw):
+            d = {"path": path, "mtime": 1, "size": 2 ** 33, "volume_id": None, "type": "dvd", "format": "iso", "arch": "x86_64",
+                 "disc_number": 1, "disc_count": 1, "checksums": {"sha256": "a" * 64}, "implant_md5": None, "bootable": False,
+                 "subvariant": "S", "unified": False, "additional_variants": []}
+            d.update(kw)
+            return d
+        cf = {"id": "F-21-20141201.0", "type": "production", "date": "20141201", "respin": 0}
+        for shared in (True, False):
+            yield {"V1": "Server", "V2": "Client", "A": "x86_64", "cf": cf, "f1": img("a.iso"), "f2": img("b.iso", disc_number=2),
+                   "f3": img("a.iso", disc_number=3, size=5), "shared": shared, "reversed": True}
+            yield {"V1": "Server", "V2": "Client", "A": "x86_64", "cf": cf, "f1": img("a.iso"), "f2": img("b.iso", disc_number=2),
+                   "f3": img("a.iso", disc_number=3, size=5), "shared": shared}
+            yield {"V1": "Server", "V2": "Client", "A": "s390x", "cf": cf, "f1": img("b.iso", unified=True),
+                   "f2": img("a.iso", type="netinst", volume_id="vol", implant_md5="0" * 32, bootable=True, unified=True,
+                             additional_variants=["Client"]),
+                   "f3": img("b.iso", subvariant="K", mtime=0), "shared": shared}
+            yield {"V1": "B", "V2": "A", "A": "aarch64", "cf": dict(cf, respin=0), "f1": img("z/a.iso", disc_number=0, disc_count=0, mtime=0),
+                   "f2": img("a/z.iso", disc_number=0, disc_count=0, subvariant=""), "f3": img("z/a.iso", disc_number=0, disc_count=7),
+                   "shared": shared}
+
+    def native_eval(self, inputs):
+        mod = self.src.mods["images"]
+        m, m2 = mod.Images(), mod.Images()
+        for k, v in inputs["cf"].items():
+            setattr(m.compose, k, v)
+        ims = []
+        for k in ("f1", "f2") if inputs["shared"] else ("f1", "f3"):
+            im = mod.Image(m)
+            for a, v in copy.deepcopy(inputs[k]).items():
+                setattr(im, a, v)
+            ims.append(im)
+        try:
+            m.compose.validate()
+            for im in ims:
+                im.validate()
+        except Exception:
+            return ("skip", None), None
+        cells = [(inputs["V1"], {inputs["A"]: set(ims if inputs["shared"] else ims[:1])}),
+                 (inputs["V2"], {inputs["A"]: set(ims[:1] if inputs["shared"] else ims[1:])})]
+        m.images = dict(reversed(cells) if inputs.get("reversed") else cells)
+        data = {}
+
+        def cyc():
+            m.serialize(data)
+            m2.deserialize(data)
+        nat = native_call(cyc)
+        if nat[0] == "raise":
+            return nat, {"write_read_cycle_succeeds": False}
+
+        def view(im):
+            return dict((a, getattr(im, a)) for a in IMAGE_FIELDS)
+
+        def holds(c, fs):
+            got = [view(x) for x in c]
+            return len(got) == len(fs) and all(any(all(_same(g[a], f[a]) for a in IMAGE_FIELDS) for g in got) for f in fs)
+        c1 = m2.images.get(inputs["V1"], {}).get(inputs["A"], ())
+        c2 = m2.images.get(inputs["V2"], {}).get(inputs["A"], ())
+        return nat, {"write_read_cycle_succeeds": True,
+                     "no_variant_or_arch_gained_or_lost": sorted(m2.images) == sorted([inputs["V1"], inputs["V2"]]) and
+                     all(list(m2.images[v]) == [inputs["A"]] for v in m2.images),
+                     "every_image_of_a_cell_read_back_with_all_attributes": holds(c1, [inputs["f1"], inputs["f2"]] if inputs["shared"] else [inputs["f1"]]),
+                     "image_of_the_other_cell_read_back_from_its_own_record": holds(c2, [inputs["f1"] if inputs["shared"] else inputs["f3"]]),
+                     "compose_section_intact": all(_same(getattr(m2.compose, k), v) for k, v in inputs["cf"].items()),
+                     "version_current_after_load": m2.header.version == "%d.%d" % self.T.VERSION}
+
+    def describe(self, inputs):
+        if inputs["shared"]:
+            return "Images manifest {%r: {%r: {I1, I2}}, %r: {%r: {I1}}} with I1=%r, I2=%r written and re-read" % (
+                inputs["V1"], inputs["A"], inputs["V2"], inputs["A"], inputs["f1"], inputs["f2"])
+        return "Images manifest {%r: {%r: {I1}}, %r: {%r: {I3}}} with I1=%r, I3=%r written and re-read" % (
+            inputs["V1"], inputs["A"], inputs["V2"], inputs["A"], inputs["f1"], inputs["f3"])
+
+
 def ast_only_writer(run, src, module, cls, attr, allowed):
     """AST clause: `add` is the only method of the class that stores into self.<attr> (C09 load.routes / C10 add.only_writer)"""
     with run.obligation("%s.%s#%s_written_only_by_%s" % (module, cls, attr, "_".join(allowed)), "ast",
@@ -331,4 +514,4 @@ def ast_only_writer(run, src, module, cls, attr, allowed):
 
 
 def contracts(src, T):
-    return [ImagesAdd(src, T, 0), ImagesAdd(src, T, 1), ImagesAdd(src, T, 2), IdentifyObjEqDict(src, T), Add11Refile(src, T)]
+    return [ImagesAdd(src, T, 0), ImagesAdd(src, T, 1), ImagesAdd(src, T, 2), IdentifyObjEqDict(src, T), Add11Refile(src, T), ImagesRoundTrip(src, T)]
